@@ -112,7 +112,9 @@ package http1
 //@   abstract
 //@   noinline
 //@   panics
-//@   requires disp == 0 && !handed
+//@   modifies disp, handed
+//@   ghostset-at-entry disp = 0
+//@   ghostset-at-entry handed = false
 //@   ghostset after acquireConn: disp = ite(result2 == nil, 1, 0)
 //@   assert before closeConn: disp == 1
 //@   ghostset after closeConn: disp = 2
